@@ -82,6 +82,8 @@ class Engine(object):
         self.max_seconds = max_seconds
         self.nl_mode = 'exact'
         self.sampler = None
+        self.prefer_bv = False
+        self.bv_incremental_prove = False
         self.quick_ms = 1500
         self.branch_ms = 3000
         self.results = []       # obligation records
@@ -118,6 +120,8 @@ class Engine(object):
         self._has_bitops = False
         self.var_bounds = {}
         self._nonneg = {}
+        self._bvstate = None
+        self._nl_defs = []
         if self.mode == 'symbolic':
             self.solver.reset()
             self._limit(self.solver, self.timeout_ms)
@@ -225,6 +229,20 @@ class Engine(object):
                 raise EngineError('nondeterministic replay (expected value decision)')
             self._add(cond if d.taken else z3.Not(cond))
             return d.taken
+        if self.prefer_bv:
+            got = self._bv_branch(cond) if self._bvstate is not False else None
+            if got is not None:
+                can_t, can_f = got
+                if not can_t and not can_f:
+                    raise PathEnd('infeasible')
+                d = _Decision('b')
+                d.taken = can_t
+                d.alt = can_t and can_f
+                self.trace.append(d)
+                self.pos += 1
+                self._add(cond if d.taken else z3.Not(cond), dirty=False)
+                self._dirty = False
+                return d.taken
         self._limit(self.solver, min(self.timeout_ms, self.branch_ms))
         can_t = self._check(cond) != z3.unsat
         # if cond is infeasible its negation is implied (pc is feasible by construction;
@@ -241,6 +259,43 @@ class Engine(object):
         self._add(cond if d.taken else z3.Not(cond), dirty=False)
         self._dirty = False
         return d.taken
+
+    BV_WIDTH = 64
+
+    def _bv_branch(self, cond):
+        """Feasibility of cond / not cond with an incremental bit-vector solver (exact
+        translation at a fixed width, checked against the interval analysis)."""
+        from . import bv
+        t0 = time.time()
+        try:
+            st = self._bvstate
+            if st is None:
+                tr = bv.Translator(self.var_bounds)
+                tr.W = self.BV_WIDTH
+                sv = z3.SolverFor('QF_BV')
+                st = self._bvstate = {'tr': tr, 'solver': sv, 'n': 0}
+            tr, sv = st['tr'], st['solver']
+            while st['n'] < len(self.pc):
+                c = z3.simplify(self.pc[st['n']])
+                tr.scan_bool(c)
+                if tr.width() > self.BV_WIDTH:
+                    raise bv.NotTranslatable('width')
+                sv.add(tr.tr_bool(c))
+                st['n'] += 1
+            tr.scan_bool(cond)
+            if tr.width() > self.BV_WIDTH:
+                raise bv.NotTranslatable('width')
+            bc = tr.tr_bool(cond)
+            sv.set('rlimit', int(self.branch_ms * self.RL_PER_MS))
+            can_t = sv.check(bc) != z3.unsat
+            can_f = True if not can_t else sv.check(z3.Not(bc)) != z3.unsat
+            return can_t, can_f
+        except (bv.NotTranslatable, z3.Z3Exception):
+            self._bvstate = False
+            return None
+        finally:
+            self.solver_time += time.time() - t0
+            self.solver_calls += 1
 
     def _interval_decide(self, cond):
         """Decide an integer comparison from the declared variable bounds alone (no solver).
@@ -383,9 +438,46 @@ class Engine(object):
                 del self.pc[n:]
                 self._dirty = True
 
+    def _next_value_bv(self, t, done):
+        """Value enumeration with the incremental bit-vector solver (prefer_bv mode)."""
+        from . import bv
+        if self._bvstate is False:
+            return False
+        t0 = time.time()
+        try:
+            if self._bv_branch(z3.BoolVal(True) if False else (t == t)) is None and self._bvstate is False:
+                return False
+            st = self._bvstate
+            tr, sv = st['tr'], st['solver']
+            while st['n'] < len(self.pc):
+                c = z3.simplify(self.pc[st['n']])
+                tr.scan_bool(c)
+                sv.add(tr.tr_bool(c))
+                st['n'] += 1
+            tr.interval(t)
+            if tr.width() > self.BV_WIDTH:
+                raise bv.NotTranslatable('width')
+            bt = tr.tr_int(t)
+            sv.set('rlimit', int(self.timeout_ms * self.RL_PER_MS))
+            r = sv.check(*[bt != z3.BitVecVal(v, self.BV_WIDTH) for v in done])
+            if r == z3.unsat:
+                return None
+            if r != z3.sat:
+                return False
+            return sv.model().eval(bt, model_completion=True).as_signed_long()
+        except (bv.NotTranslatable, z3.Z3Exception):
+            return False
+        finally:
+            self.solver_time += time.time() - t0
+            self.solver_calls += 1
+
     def _next_value(self, t, done):
         if len(done) >= self.MAX_FORK:
             raise Unsupported('more than %d values to fork over' % self.MAX_FORK)
+        if self.prefer_bv:
+            v = self._next_value_bv(t, done)
+            if v is not False:
+                return v
         self.solver.push()
         try:
             # prefer small values in order: ask for the minimum not yet done
@@ -526,7 +618,7 @@ class Engine(object):
         model = None
         backend = 'z3'
         r = z3.unknown
-        if self._has_bitops:
+        if self._has_bitops or self.prefer_bv:
             # bit operations between symbolic operands: exact bit-vector translation
             r, model = self._bv_check(neg)
             backend = 'z3-bv'
@@ -562,6 +654,13 @@ class Engine(object):
             rec['status'] = 'refuted'
             rec['backend'] = backend
             rec['model'] = model if isinstance(model, dict) else self._model_inputs(model)
+            if self._nl_defs:
+                # the counter-model may be an artefact of the product abstraction: look for
+                # one that also satisfies the exact products (easier to replay natively)
+                exact = self._exact_model(neg)
+                if exact is not None:
+                    rec['model'] = exact
+                    rec['model_exact_products'] = True
         else:
             r2, model = (('skipped (uninterpreted bit operations)', None) if self._has_bitops
                          else self._second_opinion(neg))
@@ -625,6 +724,44 @@ class Engine(object):
         """Exact bit-vector translation of pc & neg (needs bounded variables)."""
         from . import bv
         t = time.time()
+        if self.prefer_bv and self.bv_incremental_prove and self._bvstate not in (None, False):
+            # incremental solver shared with the branch decisions of this path
+            try:
+                st = self._bvstate
+                tr, sv = st['tr'], st['solver']
+                while st['n'] < len(self.pc):
+                    c = z3.simplify(self.pc[st['n']])
+                    tr.scan_bool(c)
+                    sv.add(tr.tr_bool(c))
+                    st['n'] += 1
+                n = z3.simplify(neg)
+                tr.scan_bool(n)
+                if tr.width() > self.BV_WIDTH:
+                    raise bv.NotTranslatable('width')
+                bn = tr.tr_bool(n)
+                sv.set('rlimit', int(self.timeout_ms * self.RL_PER_MS))
+                r = sv.check(bn)
+                self._bv_reason = '%s (incremental, width %d) in %.1fs' % (r, self.BV_WIDTH, time.time() - t)
+                self.solver_time += time.time() - t
+                self.solver_calls += 1
+                if r == z3.unsat:
+                    return z3.unsat, None
+                if r == z3.sat:
+                    m = sv.model()
+                    out = {}
+                    for k, v in self.input_vars.items():
+                        if isinstance(v, (int, bool)):
+                            out[k] = v
+                        elif z3.is_bool(v):
+                            out[k] = z3.is_true(m.eval(v, model_completion=True))
+                        elif k in tr.vars:
+                            out[k] = m.eval(tr.vars[k], model_completion=True).as_signed_long()
+                        else:
+                            out[k] = 0
+                    return z3.sat, out
+                return z3.unknown, None
+            except (bv.NotTranslatable, z3.Z3Exception):
+                pass
         try:
             terms = [z3.simplify(c) for c in self.pc] + [z3.simplify(neg)]
             ans, m, W = bv.check(terms, self.var_bounds, int(self.timeout_ms * self.RL_PER_MS))
@@ -652,6 +789,21 @@ class Engine(object):
                     out[k] = ints.get(k, 0)
             return z3.sat, out
         return z3.unknown, None
+
+    def _exact_model(self, neg):
+        try:
+            s = z3.Solver()
+            self._limit(s, self.timeout_ms)
+            for c in self.pc:
+                s.add(c)
+            s.add(neg)
+            for p, ta, tb in self._nl_defs:
+                s.add(p == ta * tb)
+            if s.check() == z3.sat:
+                return self._model_inputs(s.model())
+        except z3.Z3Exception:
+            pass
+        return None
 
     def _second_opinion(self, neg):
         """Ask cvc5 about pc & neg; returns ('unsat'|'sat'|'unknown'|..., None)."""
@@ -743,6 +895,7 @@ class Engine(object):
         if p is None:
             p = z3.Int('~mul%d' % len(self._nl))
             self._nl[key] = p
+            self._nl_defs.append((p, ta, tb))
             # sign and zero rules, monotonicity against the factors
             self._add(z3.Implies(z3.Or(ta == 0, tb == 0), p == 0))
             self._add(z3.Implies(z3.And(ta > 0, tb > 0), z3.And(p >= ta, p >= tb)))
